@@ -59,6 +59,17 @@ Theorem C13_duplicate_declaration_rejected (parse_float : bytes -> option N) e v
 Proof. exact (column_to_data_enum_duplicate_rejected parse_float e vals cells). Qed.
 Print Assumptions C13_duplicate_declaration_rejected.
 
+Theorem C13_read_enum_declaration_nodup (parse_float : bytes -> option N) e vals cells c :
+  column_to_data atoi parse_float atob e DEnum (Some vals) cells = Ok c -> NoDup vals.
+Proof. exact (column_to_data_enum_ok_nodup parse_float e vals cells c). Qed.
+Print Assumptions C13_read_enum_declaration_nodup.
+
+(* the premise as a computable check *)
+Theorem C13_enum_decl_nodup_spec (c : column) :
+  enum_decl_nodup c = true <-> (forall vals l, c = ColEnum vals l -> NoDup vals).
+Proof. exact (enum_decl_nodup_iff c). Qed.
+Print Assumptions C13_enum_decl_nodup_spec.
+
 (* the premises are satisfiable (no float column, so the formatter is irrelevant): columns I (int), a name
    that needs quoting, S with a null, a quote, a delimiter, a line feed and an empty string, E (enum with
    the empty string declared); written with Columns(order) and without header *)
@@ -130,7 +141,10 @@ Print Assumptions C13_first_occurrence_order.
    RANK ORDER: enum comparisons (Sort, <, >) use the position in the value table.  After the round trip without
    declared values that position is the position of the first occurrence in the written column - in general NOT
    the order of the original table (C13_rank_order_changes below); unused values of the original table are gone.
-   Extra premise: at most 255 distinct non-null strings (card_ok; C13_nonstrict_limit_sharp: it is necessary). *)
+   Extra premise: at most 255 distinct non-null strings (card_ok; C13_nonstrict_limit_sharp: it is necessary).
+   As in C13_roundtrip, a declared (non-empty) value list names no value twice (enum_decl_nodup; for a column
+   without declared values there is nothing to ask: enum_decl_nodup (ColEnum [] l) = true by computation, and the
+   re-derived table is duplicate-free, C13_first_occurrence_nodup). *)
 Theorem C13_roundtrip_enum
   (format_float : N -> bytes) (parse_float : bytes -> option N)
   (float_roundtrip : forall x, is_nan_bits x = false ->
@@ -140,10 +154,50 @@ Theorem C13_roundtrip_enum
   to_csv format_float f tc = Ok doc ->
   rt_premises e (frame_len f) wf = true ->
   forallb (fun nc => card_ok e (snd nc)) wf = true ->
+  forallb (fun nc => enum_decl_nodup (snd nc)) wf = true ->
   read_csv_spec atoi parse_float atob (read_conf_for e (tc_header tc) wf) doc
   = Ok (map (fun nc => (fst nc, readback_col e (snd nc))) wf).
 Proof. exact (roundtrip2 format_float parse_float float_roundtrip f tc wf doc e). Qed.
 Print Assumptions C13_roundtrip_enum.
+
+(* that premise is necessary: with all the other premises in place, a frame with an enum column whose declared
+   value list names a value twice is written by ToCSV, and ReadCSV given that list as EnumVals reports an error *)
+Theorem C13_roundtrip_duplicate_declaration_fails
+  (format_float : N -> bytes) (parse_float : bytes -> option N)
+  (float_roundtrip : forall x, is_nan_bits x = false ->
+       format_float x <> [] /\ no_cr (format_float x) = true /\ parse_float (format_float x) = Some x)
+  (f : frame) (tc : to_conf) (wf : frame) (doc : bytes) (e : bool) :
+  iter_cols f tc = Ok wf ->
+  to_csv format_float f tc = Ok doc ->
+  rt_premises e (frame_len f) wf = true ->
+  forallb (fun nc => card_ok e (snd nc)) wf = true ->
+  forallb (fun nc => enum_decl_nodup (snd nc)) wf = false ->
+  read_csv_spec atoi parse_float atob (read_conf_for e (tc_header tc) wf) doc = Fail.
+Proof. exact (roundtrip2_duplicate format_float parse_float float_roundtrip f tc wf doc e). Qed.
+Print Assumptions C13_roundtrip_duplicate_declaration_fails.
+
+(* premises satisfiable: the value x is listed twice (every cell is a listed value, so nothing else is wrong) *)
+Definition ex6_f : frame :=
+  [([73], ColInt [1; 2; 3]%Z); ([69], ColEnum [[120]; [121]; [120]] [Some [120]; Some [121]; Some [120]])].
+Example C13_roundtrip_duplicate_declaration_example :
+  let tc := mkToConf true None in
+  iter_cols ex6_f tc = Ok ex6_f /\
+  (exists doc, to_csv (fun _ => []) ex6_f tc = Ok doc) /\
+  rt_premises false (frame_len ex6_f) ex6_f = true /\
+  forallb (fun nc => card_ok false (snd nc)) ex6_f = true /\
+  forallb (fun nc => enum_decl_nodup (snd nc)) ex6_f = false.
+Proof. cbv zeta. split; [reflexivity|]. split; [eexists; vm_compute; reflexivity|]. vm_compute. repeat split. Qed.
+
+(* the table the non-strict factory derives never lists a value twice, so a frame that was read back without
+   declared values can be written and read again WITH its tables declared *)
+Theorem C13_first_occurrence_nodup (e : bool) (cells : list bytes) : NoDup (first_occ e cells).
+Proof. exact (first_occ_NoDup e cells [] (NoDup_nil bytes)). Qed.
+Print Assumptions C13_first_occurrence_nodup.
+
+Theorem C13_readback_decl_nodup (e : bool) (c : column) :
+  enum_decl_nodup c = true -> enum_decl_nodup (readback_col e c) = true.
+Proof. exact (readback_decl_nodup e c). Qed.
+Print Assumptions C13_readback_decl_nodup.
 
 Theorem C13_readback_strict (e : bool) (c : column) :
   strict_enum c = true -> readback_col e c = norm_col e c /\ card_ok e c = true.
@@ -181,6 +235,7 @@ Theorem C13_roundtrip_cr_sharp
   rt_premises_sharp e (frame_len f) wf = true ->
   last_col_ok (tc_header tc) wf = true ->
   forallb (fun nc => card_ok e (snd nc)) wf = true ->
+  forallb (fun nc => enum_decl_nodup (snd nc)) wf = true ->
   read_csv_spec atoi parse_float atob (read_conf_for e (tc_header tc) wf) doc
   = Ok (map (fun nc => (fst nc, readback_col e (snd nc))) wf).
 Proof. exact (roundtrip_sharp format_float parse_float float_roundtrip f tc wf doc e). Qed.
@@ -200,6 +255,8 @@ Example C13_roundtrip_cr_sharp_example :
   let tc := mkToConf true None in
   rt_premises false (frame_len ex4_f) ex4_f = false /\
   rt_premises_sharp false (frame_len ex4_f) ex4_f = true /\ last_col_ok true ex4_f = true /\
+  forallb (fun nc => card_ok false (snd nc)) ex4_f = true /\
+  forallb (fun nc => enum_decl_nodup (snd nc)) ex4_f = true /\
   match to_csv (fun _ => []) ex4_f tc with
   | Ok doc => read_csv_spec atoi (fun _ => None) atob (read_conf_for false true ex4_f) doc
   | _ => Fail end
@@ -218,13 +275,16 @@ Theorem C13_roundtrip_any_fragmentation
   to_csv format_float f tc = Ok doc ->
   rt_premises e (frame_len f) wf = true ->
   forallb (fun nc => card_ok e (snd nc)) wf = true ->
+  forallb (fun nc => enum_decl_nodup (snd nc)) wf = true ->
   Forall (fun c : bytes => c <> []) chunks -> concat chunks = doc -> (t = TEofSep \/ t = TEofWith) ->
   read_csv_buf atoi parse_float atob (read_conf_for e (tc_header tc) wf) chunks t
   = Ok (map (fun nc => (fst nc, readback_col e (snd nc))) wf).
 Proof. exact (roundtrip_fragmented format_float parse_float float_roundtrip f tc wf doc e chunks t). Qed.
 Print Assumptions C13_roundtrip_any_fragmentation.
 
-(* the reader declares the TYPES only (no EnumVals), whatever value tables the written enum columns have *)
+(* the reader declares the TYPES only (no EnumVals), whatever value tables the written enum columns have - even
+   a table that lists a value twice: nothing is declared, so the reader's duplicate check has nothing to reject
+   (no enum_decl_nodup premise here) *)
 Theorem C13_roundtrip_undeclared_enum_values
   (format_float : N -> bytes) (parse_float : bytes -> option N)
   (float_roundtrip : forall x, is_nan_bits x = false ->
@@ -263,6 +323,7 @@ Example C13_rank_order_changes :
   forallb (fun nc => card_ok true (snd nc)) (forget_frame ex2_wf) = true /\
   rt_premises true (frame_len ex2_f) ex2_wf = true /\
   forallb (fun nc => card_ok true (snd nc)) ex2_wf = true /\
+  forallb (fun nc => enum_decl_nodup (snd nc)) ex2_wf = true /\
   Forall (fun c : bytes => c <> []) ex2_chunks /\ concat ex2_chunks = ex2_doc /\ (2 < length ex2_chunks)%nat /\
   read_csv_buf atoi (fun _ => None) atob (read_conf_for true false (forget_frame ex2_wf)) ex2_chunks TEofWith
   = Ok [([69], ColEnum [[97]; [98]] [Some [97]; None; Some [98]; Some [97]]);
@@ -280,7 +341,7 @@ Qed.
 
 (* ================================================================ 3. from a physical frame *)
 
-From QF Require Import Model.Json Model.Observe.
+From QF Require Import Model.Json Model.Observe Proofs.EnumProofs.
 (* from here on [frame] is the physical frame of Model/Frame.v (columns, row index, error flag) *)
 From QF Require Import Model.Frame Model.Filter Model.Ops Model.TableSpec.
 
@@ -301,8 +362,10 @@ Print Assumptions C13_observe_is_table.
    Premises, all of them: (1) abs f defined; (2) unique column names; (3) phys_premises e f - on the frame as
    observed: at least one column, names accepted by qframe.New (non-empty, not quoted, no leading $) and
    without CR, no CR in string / enum cells, every column of the frame's length, a null enum cell only with
-   EmptyNull or with "" among the column's values (or an empty value table); ints within int64 (always true in
-   Go; the model's ints are Z); (4) Columns(order) lists no name twice; (5) the strconv premise on
+   EmptyNull or with "" among the column's values (or an empty value table), no enum value table that lists a
+   value twice (the reader is given the tables as EnumVals and rejects such a declaration,
+   C13_needs_distinct_enum_values; every column built by the enum factory has such a table, C17_table_nodup);
+   ints within int64 (always true in Go; the model's ints are Z); (4) Columns(order) lists no name twice; (5) the strconv premise on
    FormatFloat/ParseFloat for non-NaN values; (6) the io.Reader never returns 0 bytes without EOF.
    NOT needed: the non-strict cardinality limit (an observed column with an empty value table has only null
    cells), any property of the row index beyond (1).
@@ -373,12 +436,15 @@ Print Assumptions C13_roundtrip_physical_columns.
 (* premise (3) spelled out on the logical table and the enum columns: at least one column; every name accepted
    by qframe.New and without CR; every cell an int64 / a string without CR (cell_rt_ok); every enum column with
    at most 255 values and, if a null occurs among its indexed rows, EmptyNull set or "" among its values or no
-   values at all (enum_null_ok).  These imply phys_premises. *)
+   values at all (enum_null_ok); no enum value table with a repeated value (enum_tables_nodup of
+   Proofs/EnumProofs.v, the premise C09 and C14 use as well: what every column built by the enum factory has).
+   These imply phys_premises. *)
 Theorem C13_physical_premises_on_the_table (e : bool) (f : frame) (t : table) :
   abs f = Ok t -> NoDup (col_names f) -> cols f <> [] ->
   Forall (fun n => CsvRead.check_name n = true /\ no_cr n = true) (col_names f) ->
   Forall (Forall cell_rt_ok) (trows t) ->
   Forall (fun nc => enum_null_ok e (ix f) (snd nc)) (cols f) ->
+  enum_tables_nodup f = true ->
   phys_premises e f = true.
 Proof. exact (phys_premises_intro e f t). Qed.
 Print Assumptions C13_physical_premises_on_the_table.
@@ -489,12 +555,14 @@ Example C13_physical_premises_on_the_table_example :
   exists t, abs ex3_f = Ok t /\ cols ex3_f <> [] /\
     Forall (fun n => CsvRead.check_name n = true /\ no_cr n = true) (col_names ex3_f) /\
     Forall (Forall cell_rt_ok) (trows t) /\
-    Forall (fun nc => enum_null_ok true (ix ex3_f) (snd nc)) (cols ex3_f).
+    Forall (fun nc => enum_null_ok true (ix ex3_f) (snd nc)) (cols ex3_f) /\
+    enum_tables_nodup ex3_f = true.
 Proof.
-  eexists. split; [vm_compute; reflexivity|]. split; [discriminate|]. split; [|split].
+  eexists. split; [vm_compute; reflexivity|]. split; [discriminate|]. split; [|split; [|split]].
   - repeat constructor.
   - repeat constructor.
   - repeat constructor; cbn; auto; unfold enum_max_cardinality; lia.
+  - vm_compute. reflexivity.
 Qed.
 
 (* ---- each premise is needed *)
@@ -529,6 +597,18 @@ Example C13_needs_readable_enum_null :
   readback_of false f (mkToConf true None) = Fail /\
   readback_of true f (mkToConf true None) = Ok [([69], ColEnum [[120]] [Some [120]; None])].
 Proof. vm_compute. split; reflexivity. Qed.
+
+(* (3) an enum column whose value table lists a value twice (only a frame NOT built by the enum factory has one):
+   ToCSV writes it, but ReadCSV given that table as EnumVals rejects the declaration; read back with the type only
+   (no EnumVals) the column is accepted and gets the re-derived table *)
+Example C13_needs_distinct_enum_values :
+  let f := mkFrame [([69], ECol [0; 1; 2] [[120]; [121]; [120]] true)] [0; 1; 2]%nat false in
+  phys_premises false f = false /\
+  readback_of false f (mkToConf true None) = Fail /\
+  (do o <- observe_frame f; do doc <- frame_to_csv (fun _ => []) f (mkToConf true None);
+   read_csv_spec atoi (fun _ => None) atob (read_conf_for false true (forget_frame o)) doc)
+  = Ok [([69], ColEnum [[120]; [121]] [Some [120]; Some [121]; Some [120]])].
+Proof. vm_compute. repeat split. Qed.
 
 (* (4) Columns(order) with a repeated name passes ToCSV's checks and writes that column twice *)
 Example C13_needs_order_without_repetition :
